@@ -22,7 +22,7 @@ def export_cases(ctx):
     for cfg, what in (('OciFuncsMC.cfg', '18 methods x {each field alone, all but one, all, none} x constructor x nil/non-nil table: '
                                          'OwnFieldOnly (pairwise over the family, and per case), totality, nil = empty, one yield'),
                       ('OciFuncsMC_args.cfg', '18 methods x {each field alone, all, none, all but the own} x constructor (and the nil table) x the '
-                                              'product of special argument values per parameter (156 profiles): outcome independent of arguments')):
+                                              'product of special argument values per parameter (156 profiles), and x {cancelled, expired, nil} context: outcome independent of arguments')):
         cs, r = vlib.generate(ctx, 'OciFuncsMC.tla', cfg, workers=1, timeout=300)
         if not r['ok'] or 'distinct' not in r:
             raise vlib.Machinery('model check %s did not pass:\n' % cfg + vlib.tlc_errors(r['out']))
@@ -34,9 +34,10 @@ def export_cases(ctx):
                                           depth=r.get('depth'), wall_s=round(r['wall'], 1), what='%s; %d cases exported' % (what, len(cs))))
         for c in cs:
             c.setdefault('av', [])
+            c.setdefault('cx', 'live')
         cases += cs
-    if not any(c['av'] for c in cases):
-        raise vlib.Machinery('no case with special argument values was exported')
+    if not any(c['av'] for c in cases) or {c['cx'] for c in cases} != {'live', 'cancelled', 'expired', 'nil'}:
+        raise vlib.Machinery('the cases with special argument values / contexts were not all exported')
     # every (method, outcome kind) must be there, or the batch proves nothing about it
     seen = {(c['m'], c['pred']) for c in cases}
     methods = sorted({c['m'] for c in cases})
@@ -88,11 +89,11 @@ def count(ctx, trace):
 
 
 def brief(e):
-    keep = ('op', 'id', 'm', 'F', 'custom', 'nilrecv', 'sret', 'pred', 'av', 'passed', 'calls', 'ctor', 'got', 'err', 'yields', 'panic', 'msg')
+    keep = ('op', 'id', 'm', 'F', 'custom', 'nilrecv', 'sret', 'pred', 'av', 'cx', 'passed', 'calls', 'ctor', 'got', 'err', 'yields', 'panic', 'msg')
     return {k: e[k] for k in keep if k in e}
 
 
-def samples(trace, want=6):
+def samples(trace, want=8):
     out = []
     with open(trace) as f:
         f.readline()
@@ -101,7 +102,7 @@ def samples(trace, want=6):
             e = json.loads(l)
             if e['op'] == 'reset':
                 continue
-            key = (e.get('pred'), e['m'] in ('Repositories', 'Tags', 'Referrers'), bool(e.get('av')))
+            key = (e.get('pred'), e['m'] in ('Repositories', 'Tags', 'Referrers'), bool(e.get('av')), e.get('cx'))
             if key in seen:
                 continue
             seen.add(key)
@@ -119,7 +120,7 @@ def name_observations(ctx, trace):
     for s in scen:
         if len(s) == 2:
             e = json.loads(s[1])
-            if e['op'] == 'call' and e['F'] == [] and not e['av']:
+            if e['op'] == 'call' and e['F'] == [] and not e['av'] and e['cx'] == 'live':
                 sel.append(s)
     obs = []
     p = os.path.join(ctx.sub('strictname'), 'strict.ndjson')
@@ -247,7 +248,7 @@ def run(ctx):
                         'TLC and the Json/IOUtils community modules']
     return vlib.finish(ctx, rule='each case is one *ociregistry.Funcs value built by reflection (every set field holds a recording stub, the '
                        'constructor records too) and one method call with distinctive arguments, and again with every product of special argument values '
-                       '(empty strings/digest, offset pairs (0,-1) (0,0) (-1,-1) (5,3), chunk sizes 0/-1, resume offset -1, nil/empty reader and contents, zero descriptor); '
+                       '(empty strings/digest, offset pairs (0,-1) (0,0) (-1,-1) (5,3), chunk sizes 0/-1, resume offset -1, nil/empty reader and contents, zero descriptor) and under a cancelled, an expired and the nil context; '
                        ' the event carries inputs and projected outputs; '
                        'TLC accepts it iff it is what Call/Effects of OciFuncs prescribe: stubs run = [own field] with the same arguments and '
                        'results identical to the stub\'s, or no stub run and the error is exactly the constructor\'s / satisfies errors.Is(ErrUnsupported), '
